@@ -431,6 +431,9 @@ func hRestore(dir string) {
 			closeAPI()
 			out.Count("backuptool")
 		}
+		// two restores of ONE table that overlap: the first is held inside its load while the second starts
+		// and is held too; each restore that returns nil must have made the table exactly its own stream
+		doubleRestore(out, e, r, max)
 		// point-in-time: a stream taken while a writer keeps writing equals the content at the index it declares
 		{
 			_, err := e.CreateTable("live")
@@ -528,3 +531,85 @@ func hRestore(dir string) {
 }
 
 var _ = io.EOF
+
+// gatedReader hands out the stream's records; after `after` reads it reports that it got there and
+// waits to be let through.
+type gatedReader struct {
+	r       io.Reader
+	after   int
+	reached chan struct{}
+	gate    chan struct{}
+}
+
+func (g *gatedReader) Read(p []byte) (int, error) {
+	if g.after == 0 {
+		close(g.reached)
+		<-g.gate
+	}
+	g.after--
+	return g.r.Read(p)
+}
+
+func doubleRestore(out *Out, e *storage.Engine, r *rand.Rand, max uint64) {
+	maxVal := 300
+	contents := [2][]pair{genContent(r, 6+r.Intn(10), false, maxVal), genContent(r, 6+r.Intn(10), false, maxVal)}
+	var paths [2]string
+	for i, c := range contents {
+		src := fmt.Sprintf("dblsrc%d", i)
+		_, err := e.CreateTable(src)
+		must(err)
+		waitTable(e, src)
+		putAll(e, src, c)
+		paths[i], _ = streamToFile(e, src, false)
+		defer os.Remove(paths[i])
+	}
+	dst := "dbl"
+	var gr [2]*gatedReader
+	var done [2]chan error
+	for i := range gr {
+		f, err := snapshot.OpenFile(paths[i])
+		must(err)
+		defer f.Close()
+		gr[i] = &gatedReader{r: f, after: 2, reached: make(chan struct{}), gate: make(chan struct{})}
+		done[i] = make(chan error, 1)
+		go func(i int) { done[i] <- e.Restore(dst, gr[i]) }(i)
+		select {
+		case <-gr[i].reached:
+		case err := <-done[i]:
+			// it did not get as far as loading (lost a race on the catalogue record ...): nothing is claimed
+			done[i] <- err
+		case <-time.After(60 * time.Second):
+			panic("doubleRestore: a restore neither loads nor returns")
+		}
+	}
+	report := func(which int) {
+		waitTable(e, dst)
+		back, err := readAll(e, dst)
+		ans := "err read"
+		if err == nil {
+			ans = fmt.Sprintf("ok %s 1", pairsDigest(back))
+		}
+		out.Line(fmt.Sprintf("restore %d backup %s", max, pairsStr(contents[which])), ans)
+		out.Count("restore_overlapping")
+	}
+	last := -1
+	for i := range gr {
+		close(gr[i].gate)
+		var err error
+		select {
+		case err = <-done[i]:
+		case <-time.After(120 * time.Second):
+			panic("doubleRestore: a restore does not return")
+		}
+		if err == nil {
+			last = i
+			report(i)
+		} else {
+			out.Count("restore_overlapping_refused")
+			if last >= 0 {
+				// a restore that failed leaves the table as the last successful one made it
+				report(last)
+			}
+		}
+	}
+}
